@@ -101,6 +101,7 @@ class Ctx:
     nshards: int
     deadline: float
     check_id: str
+    workdir: str = ""
 
     def expired(self) -> bool:
         return time.time() > self.deadline
@@ -326,7 +327,7 @@ def _shrink(check: Check, part: Part, ctx: Ctx, bucket: str, start_case: dict, s
 def run_shard(check: Check, ctx: Ctx, only_parts: Optional[List[str]] = None) -> dict:
     known = load_known()
     col = Collector(check, known)
-    last_path = os.path.join(env.work_dir(check.id), f"shard{ctx.shard}.last")
+    last_path = os.path.join(ctx.workdir or env.work_dir(check.id), f"shard{ctx.shard}.last")
 
     def note(case: dict) -> None:
         try:
@@ -435,14 +436,21 @@ def _spawn(check: Check, tier: str, seed: int, k: int, n: int, outdir: str, extr
     if os.path.exists(out):
         os.remove(out)
     mod = "checks." + check.id.lower()
-    cmd = [sys.executable, "-m", mod, "--tier", tier, "--shard", f"{k}/{n}", "--out", out] + extra
+    cmd = [sys.executable, "-m", "vlib.launch", check.id, "--tier", tier, "--shard", f"{k}/{n}", "--out", out] + extra
     envv = dict(os.environ, VERIF_SEED=str(seed), PYTHONHASHSEED="0")
     log = open(os.path.join(outdir, f"shard{k}.log"), "w")
     return subprocess.Popen(cmd, cwd=VERIF_ROOT, env=envv, stdout=log, stderr=subprocess.STDOUT)
 
 
+def _out_root() -> str:
+    """evidence/ and replays/ describe /repo; runs against a scratch copy (VERIF_REPO) write elsewhere"""
+    if os.environ.get("VERIF_REPO") and os.path.abspath(os.environ["VERIF_REPO"]) != "/repo":
+        return os.path.join(VERIF_ROOT, ".work", "scratch-out")
+    return VERIF_ROOT
+
+
 def write_replay(check_id: str, rec: dict, seed: int, tier: str) -> str:
-    d = os.path.join(VERIF_ROOT, "replays", check_id)
+    d = os.path.join(_out_root(), "replays", check_id)
     os.makedirs(d, exist_ok=True)
     sha = hashlib.sha1(rec["bucket"].encode()).hexdigest()[:12]
     path = os.path.join(d, f"{sha}.json")
@@ -485,7 +493,7 @@ def write_evidence(check: Check, tier: str, seed: int, agg: dict, wall: float, v
         wall_s=round(wall, 2),
         violations=violations,
     )
-    d = os.path.join(VERIF_ROOT, "evidence")
+    d = os.path.join(_out_root(), "evidence")
     os.makedirs(d, exist_ok=True)
     tmp = os.path.join(d, f".{check.id}.json.tmp")
     with open(tmp, "w") as f:
@@ -506,7 +514,8 @@ def parent(check: Check, tier: str, args) -> int:
             return 2
     n = args.shards or check.shards.get(tier, 8)
     n = max(1, min(n, (os.cpu_count() or 4)))
-    outdir = env.work_dir(check.id)
+    outdir = os.path.join(env.work_dir(check.id), f"run{os.getpid()}")
+    os.makedirs(outdir, exist_ok=True)
     extra: List[str] = []
     if args.budget_scale != 1.0:
         extra += ["--budget-scale", str(args.budget_scale)]
@@ -615,6 +624,9 @@ def parent(check: Check, tier: str, args) -> int:
         + (" [time budget exhausted: inconclusive for the remainder]" if agg["budget_exhausted"] else "")
     )
     print(f"  classes: {top}")
+    if not harness:
+        import shutil
+        shutil.rmtree(outdir, ignore_errors=True)
     if violations:
         return 1
     if harness:
@@ -667,7 +679,7 @@ def main(check: Check) -> None:
         k, n = (int(v) for v in args.shard.split("/"))
         ctx = Ctx(tier=args.tier, seed=env.SEED, shard=k, nshards=n,
                   deadline=time.time() + check.time_budget.get(args.tier, 600.0) * args.budget_scale_time,
-                  check_id=check.id)
+                  check_id=check.id, workdir=os.path.dirname(os.path.abspath(args.out)))
         res = run_shard(check, ctx, args.parts.split(",") if args.parts else None)
         with open(args.out, "w") as f:
             json.dump(res, f, default=_jdefault)
